@@ -83,6 +83,9 @@ type Spec struct {
 	Main2     []Op // by main after the clients were started
 	Late      []Op // by main after Wait returned
 	NoWait    bool
+	Pty       bool // output is the slave end of a pseudo terminal of TermW x TermH
+	TermW     int
+	TermH     int
 }
 
 func (sp *Spec) String() string {
@@ -96,6 +99,12 @@ func (sp *Spec) String() string {
 	}
 	if sp.Delay {
 		b.WriteString(" delay")
+	}
+	if sp.Pty {
+		fmt.Fprintf(&b, " pty=%dx%d", sp.TermW, sp.TermH)
+	}
+	if sp.Width > 0 {
+		fmt.Fprintf(&b, " width=%d", sp.Width)
 	}
 	if sp.FailWrite > 0 {
 		fmt.Fprintf(&b, " failwrite=%d", sp.FailWrite)
@@ -510,6 +519,17 @@ func (sp *Spec) Run(x *X) {
 	ctx, cancel := context.WithCancel(context.Background())
 	r.cancel = cancel
 	opts := []mpb.ContainerOption{mpb.WithOutput(Recorder{x}), mpb.WithDebugOutput(debugW{x})}
+	var pty *Pty
+	if sp.Pty {
+		var err error
+		pty, err = OpenPty(sp.TermW, sp.TermH)
+		if err != nil {
+			x.Event("pty-unavailable")
+			x.Note("pty: %v", err)
+			return
+		}
+		opts[0] = mpb.WithOutput(pty.Slave)
+	}
 	switch sp.Refresh {
 	case "auto":
 		opts = append(opts, mpb.WithAutoRefresh(), mpb.WithRefreshRate(100*time.Millisecond))
@@ -581,4 +601,7 @@ func (sp *Spec) Run(x *X) {
 		}
 	}
 	r.cancel()
+	if pty != nil {
+		x.Stream = pty.Finish()
+	}
 }
